@@ -185,7 +185,7 @@ def _numcmd(rng, sc, nvars=None, types=(0, 1, 2), accs=(0, 0, 0, 1, 2), name=b"+
             else:
                 init = bytes(rng.choice(b"abc\"\\\n,;xyz\t") for _ in range(k)) + bytes(ln)
             init = init[:ln]
-        vs.append(Var(t, sc.slot(ln, init), size, rng.choice(accs), None if rng.random() < 0.5 else b"v", rng.choice([0, 0, 2])))
+        vs.append(Var(t, sc.slot(ln, init), size, rng.choice(accs), None if rng.random() < 0.5 else b"v", rng.choice([0, 0, 2, 1, 3])))
     return Cmd(name, None, rng.choice(["", "", "w"]), vs, need_all=rng.random() < 0.3)
 
 
